@@ -14,7 +14,7 @@ def split_mismatch(items):
 
 def check(ctx):
     C.extract(ctx)
-    mods = ["Oq3.Props.C04"] if os.path.exists(os.path.join(C.LEAN, "Oq3/Props/C04.lean")) else ["Oq3.Props.C01"]
+    mods = ["Oq3.Props.C04", "Oq3.Props.C04Lang"]
     C.prove(ctx, mods)
     okb, log = C.cargo_build()
     if not okb:
